@@ -45,6 +45,7 @@ struct pv_pipe {
 	int           idx;
 	bool          closed;
 	bool          dead;
+	bool          waiting; // on its endpoint's waitpipes (the creator's reference is still held there)
 	nni_list      sendq;
 	nni_list      recvq;
 	nni_list_node node;
@@ -96,9 +97,15 @@ static void
 pv_pipe_stop(void *arg)
 {
 	pv_pipe *p = arg;
+	bool     w;
 	nni_mtx_lock(&pv_mtx);
 	if (p->ep != NULL) nni_list_node_remove(&p->node);
+	w          = p->waiting;
+	p->waiting = false;
 	nni_mtx_unlock(&pv_mtx);
+	// closed while it was waiting to be matched: drop the creator's reference here
+	// (pipe_reap still holds its own until it returns)
+	if (w) nni_pipe_rele(p->npipe);
 }
 
 static int
@@ -265,6 +272,7 @@ pv_ep_match(pv_ep *ep)
 		return;
 	}
 	nni_list_remove(&ep->waitpipes, p);
+	p->waiting  = false;
 	ep->useraio = NULL;
 	nni_aio_set_output(aio, 0, p->npipe);
 	nni_aio_finish(aio, 0, 0);
@@ -309,6 +317,7 @@ pv_ep_close(void *arg)
 	}
 	while ((p = nni_list_first(&ep->waitpipes)) != NULL) {
 		nni_list_remove(&ep->waitpipes, p);
+		p->waiting = false;
 		nni_pipe_close(p->npipe);
 		nni_pipe_rele(p->npipe); // the creator's reference (the harness keeps none)
 	}
@@ -426,6 +435,7 @@ pv_conn(pv_ep *ep, uint16_t peer)
 	if ((rv = nni_pipe_alloc_listener((void **) &p, ep->nl)) != 0) return (-rv);
 	nni_mtx_lock(&pv_mtx);
 	rv = pv_register_pipe(p, ep, peer);
+	p->waiting = true;
 	nni_list_append(&ep->waitpipes, p);
 	pv_ep_match(ep);
 	nni_mtx_unlock(&pv_mtx);
@@ -447,6 +457,7 @@ pv_dial_ok(pv_ep *ep, uint16_t peer)
 	if ((rv = nni_pipe_alloc_dialer((void **) &p, ep->nd)) != 0) return (-rv);
 	nni_mtx_lock(&pv_mtx);
 	rv = pv_register_pipe(p, ep, peer);
+	p->waiting = true;
 	nni_list_append(&ep->waitpipes, p);
 	pv_ep_match(ep);
 	nni_mtx_unlock(&pv_mtx);
@@ -614,10 +625,12 @@ observe(int rv, const char *extra)
 		for (int i = ev_shown; i < nev; i++) {
 			if (evlog[i].mark != 0) continue;
 			if (pv_idx_of(evlog[i].pid) != pi) continue;
+			// "x": the callback closed the pipe it was called for
+			int x = (i + 1 < nev && evlog[i + 1].mark == 3 && evlog[i + 1].pid == evlog[i].pid && evlog[i + 1].ev == evlog[i].ev);
 			if (pi < 0)
-				printf("%s?%u:%d", first ? "" : ",", evlog[i].pid, evlog[i].ev);
+				printf("%s?%u:%d%s", first ? "" : ",", evlog[i].pid, evlog[i].ev, x ? "x" : "");
 			else
-				printf("%sp%d:%d", first ? "" : ",", pi, evlog[i].ev);
+				printf("%sp%d:%d%s", first ? "" : ",", pi, evlog[i].ev, x ? "x" : "");
 			first = 0;
 		}
 	}
@@ -810,7 +823,7 @@ script_main(void)
 			} else {
 				if (dial_aio[k] == NULL) nng_aio_alloc(&dial_aio[k], dial_aio_cb, (void *) (intptr_t) k);
 				dial_aio_state[k] = 1;
-				nng_dialer_start_aio(dials[k], 0, dial_aio[k]);
+				nng_dialer_start_aio(dials[k], NNG_FLAG_NONBLOCK, dial_aio[k]);
 			}
 		} else if (strcmp(op, "dopt") == 0) {
 			rv = nng_dialer_set_ms(dials[IDX(tok[1])], strcmp(tok[2], "min") == 0 ? NNG_OPT_RECONNMINT : NNG_OPT_RECONNMAXT, atoi(tok[3]));
